@@ -70,8 +70,8 @@ def es_worker(args):
             out['status'] = 'trace_failed'; out['error'] = info
             return out
         out['trace'] = info
-        dag = sweep.Dag(dagp, eps_to_zero=opts.get('eps0', False), merge_ulps=opts.get('merge_ulps', 0))
-        out['trace']['merged_constants'] = dag.merged_constants
+        dag = sweep.Dag(dagp, eps_to_zero=opts.get('eps0', False), merge_ulps=opts.get('merge_ulps', 0), algebraic_sqrt2=opts.get('sqrt2', False))
+        out['trace']['merged_constants'] = dag.merged_constants + getattr(dag, 'snapped_constants', 0)
         out['trace']['recall_sites'] = len(set(dag.recalls))
         out['trace']['nonfinite_consts'] = len(dag.nonfinite_consts)
         fixed = {int(k): v for k, v in opts.get('fixed', {}).items()}
@@ -83,7 +83,7 @@ def es_worker(args):
                            budget_s=opts.get('budget_s', 1e9),
                            degrees=range(-6, 7) if opts.get('scale', True) else [0])
         if opts.get('direct') == 'ackermann':
-            rels = sw.direct_ackermann()
+            rels = sw.direct_ackermann(timeout=opts.get('direct_timeout_ms', 60000))
         else:
             rels = sw.direct() if opts.get('direct') else sw.run()
         out['stats'] = sw.stats
@@ -244,7 +244,7 @@ ES_ASSUMPTIONS = [
 ]
 
 
-def decide(outcome, prop, results, scope=None, tol=1e-9):
+def decide(outcome, prop, results, scope=None, tol0=1e-9):
     """turn job results into obligations / violations / inconclusives; returns coverage dict pieces"""
     obligations = discharged = 0
     identical = 0
@@ -264,6 +264,7 @@ def decide(outcome, prop, results, scope=None, tol=1e-9):
               'queries': res['stats'].get('rel_queries', 0) + res['stats'].get('sign_queries', 0),
               'unsat': res['stats'].get('rel_unsat', 0) + res['stats'].get('sign_unsat', 0),
               'solver_s': round(res['stats'].get('solver_s', 0.0), 2), 'wall_s': round(res.get('wall_s', 0), 1), 'relations': {}}
+        tol = res['opts'].get('tol', tol0)
         for r in res['rels']:
             oid = '%s::%s' % (res['name'], r['name'])
             if scope is not None and oid in scope.get('outside_reach', {}):
@@ -442,18 +443,28 @@ def jobs_C08(tier, seed):
             jobs.append(('wrap_%s/%s' % (w, n), {'job': 'pair', 'match': 'contrib', 'model': s, 'model2': dict(s, wrap=w), 'x': x2(T, V)}, {'scale': False, 'budget_s': 600}))
     # pair 3: ePC-SAFT without ions vs PC-SAFT
     for n, s in (('hc', pc), ('assoc', {'kind': 'pcsaft', 'src': src((P + 'gross2001.json', ['propane']), (P + 'gross2002.json', ['methanol']))})):
-        jobs.append(('epcsaft_vs_pcsaft/' + n, {'job': 'pair', 'match': 'contrib', 'model': s, 'model2': dict(s, kind='epcsaft'), 'x': x2(300.0, 1000.0)}, {'scale': False, 'budget_s': 600}))
+        jobs.append(('epcsaft_vs_pcsaft/' + n, {'job': 'pair', 'match': 'contrib', 'model': s, 'model2': dict(s, kind='epcsaft'), 'x': x2(300.0, 1000.0)}, {'scale': False, 'budget_s': 600, 'merge_ulps': 8}))
     # pair 4: SAFT-VRQ Mie, Feynman-Hibbs order 0, vs SAFT-VR Mie for monomers
-    mono = [[1.0, 3.7, 150.0, 12.0, 6.0, 16.0], [1.0, 3.4, 120.0, 14.0, 6.0, 40.0]]
-    jobs.append(('vrq_fh0_vs_vrmie', {'job': 'pair', 'model': {'kind': 'saftvrmie', 'syn': mono}, 'model2': {'kind': 'saftvrqmie', 'syn': mono, 'fh': 0}, 'x': x2(150.0, 1000.0)},
-                 {'scale': False, 'merge_ulps': 8, 'budget_s': 900}))
+    # pure monomer (for mixtures SAFT-VRQ Mie adds its non-additive hard-sphere correction by design); the two models
+    # integrate the effective diameter with different quadratures: agreement is to ~3e-9, hence the tolerance
+    mono = [[1.0, 3.7, 150.0, 12.0, 6.0, 16.0]]
+    jobs.append(('vrq_fh0_vs_vrmie', {'job': 'pair', 'model': {'kind': 'saftvrmie', 'syn': mono}, 'model2': {'kind': 'saftvrqmie', 'syn': mono, 'fh': 0}, 'x': state(1, 150.0, 1000.0, seed)},
+                 {'scale': False, 'merge_ulps': 8, 'budget_s': 900, 'tol': 1e-6}))
     # pair 5: homosegmented group contribution vs combined record
     hg = {'src': src((P + 'gc_substances.json', ['propane', 'butane'])), 'segments': P + 'sauer2014_homo.json'}
     jobs.append(('homogc_vs_record', {'job': 'pair', 'match': 'contrib', 'model': dict(hg, kind='pcsaft_homogc'), 'model2': dict(hg, kind='pcsaft_homogc_records'), 'x': x2(300.0, 1000.0)},
                  {'scale': False, 'merge_ulps': 8, 'budget_s': 300}))
     # pair 6: Peng-Robinson vs textbook closed form
     prs = {'kind': 'pr', 'syn': [[369.8, 41.9e5, 0.15, 44.0], [425.2, 37.9e5, 0.2, 58.0]], 'bin': 0.02}
-    jobs.append(('pr_vs_textbook', {'job': 'pr_textbook', 'model': prs, 'x': x2(300.0, 1000.0)}, {'scale': False, 'merge_ulps': 64, 'budget_s': 600}))
+    pr1 = {'kind': 'pr', 'syn': [[369.8, 41.9e5, 0.15, 44.0]]}
+    jobs.append(('pr_vs_textbook/pure', {'job': 'pr_textbook', 'model': pr1, 'x': state(1, 300.0, 1000.0, seed)}, {'scale': False, 'merge_ulps': 64, 'sqrt2': True, 'direct': 'ackermann'}))
+    jobs.append(('pr_vs_textbook/binary_kij', {'job': 'pr_textbook', 'model': prs, 'x': x2(300.0, 1000.0)},
+                 {'scale': False, 'merge_ulps': 64, 'sqrt2': True, 'direct': 'ackermann', 'direct_timeout_ms': 20000 if tier == 'quick' else 600000}))
+    if tier == 'quick':
+        for j in jobs:
+            if j[0].startswith('fun_vs_eos') or j[0].startswith('vrq_fh0'):
+                j[2]['budget_s'] = 45   # outside the prover's reach (scope file): only the native comparison is made in the quick tier
+                j[2]['hard_timeout_s'] = 600
     return jobs
 
 
@@ -488,8 +499,9 @@ def jobs_C10(tier, seed):
     # integer coefficients: the library's f64 products b*c, p*p are exact
     d127s = {'kind': 'dippr', 'syn': [[127, 33000.0, 36000.0, 1200.0, 15000.0, 3200.0, 7000.0, 9600.0], [127, 30000.0, 30000.0, 1000.0, 12000.0, 3000.0, 5000.0, 8000.0]]}
     d107s = {'kind': 'dippr', 'syn': [[107, 33000.0, 26000.0, 2600.0, 8800.0, 1100.0], [107, 29000.0, 21000.0, 1500.0, 9000.0, 700.0]]}
-    jobs.append(('ideal_cp/dippr127', {'job': 'ideal_cp', 'model': d127s, 'rgas': 8.31446261815324 * 1000.0, 'skip': 1, 'x': state(2, 350.0, 1000.0, seed)}, {'direct': 'ackermann', 'scale': False}))
-    jobs.append(('ideal_cp/dippr107', {'job': 'ideal_cp', 'model': d107s, 'rgas': 8.31446261815324 * 1000.0, 'skip': 1, 'x': state(2, 350.0, 1000.0, seed)}, {'direct': 'ackermann', 'scale': False}))
+    dto = 15000 if tier == 'quick' else 600000
+    jobs.append(('ideal_cp/dippr127', {'job': 'ideal_cp', 'model': d127s, 'rgas': 8.31446261815324 * 1000.0, 'skip': 1, 'x': state(2, 350.0, 1000.0, seed)}, {'direct': 'ackermann', 'scale': False, 'direct_timeout_ms': dto}))
+    jobs.append(('ideal_cp/dippr107', {'job': 'ideal_cp', 'model': d107s, 'rgas': 8.31446261815324 * 1000.0, 'skip': 1, 'x': state(2, 350.0, 1000.0, seed)}, {'direct': 'ackermann', 'scale': False, 'direct_timeout_ms': dto}))
     for n_, s_ in (('dippr127', d127s), ('dippr107', d107s)):
         jobs.append(('ideal_mix/' + n_, {'job': 'ideal_mix', 'model': s_, 'x': state(2, 350.0, 1000.0, seed)}, {'budget_s': 300}))
     if tier == 'thorough':
